@@ -775,7 +775,14 @@ func c19RoundTrip(rec *vlib.Rec, w *gen.C19Watch, r *rand.Rand, idx int) {
 		return
 	}
 	rec.Count("zapi_rt_messages", 1)
+	// framing / header defects do not depend on the body: keyed by version only
 	mkey := func(stage string) string {
+		switch stage {
+		case "framing", "header":
+			return fmt.Sprintf("c19:zapi:rt:message-%s:v%d", stage, fl.v)
+		case "rejected", "body-type":
+			return fmt.Sprintf("c19:zapi:rt:message-%s:%s:v%d", stage, rt.name, fl.v)
+		}
 		return fmt.Sprintf("c19:zapi:rt:message-%s:%s:%s:v%d", stage, rt.name, rt.feature, fl.v)
 	}
 	if err != nil || m2 == nil {
